@@ -7,7 +7,6 @@ from . import common as C
 
 NA = {
     "C03": "~190 stdlib functions over unbounded strings/regex/chrono/serde: none of their internals is within Verus' (str, iterators) or CBMC's (String, regex ICE) reach; scalar ones are covered under C25/C29",
-    "C05": "time bounds for all stdlib calls: Verus proves `decreases` only for the few extracted loops (reported under C18/C25); the anchored hang (format_number: rust_decimal + String padding) is not extractable",
     "C14": "determinism across threads/histories: Kani has no thread support, Verus would need the code rewritten with permission types; cross-run equality is a hyper-property, not a per-call contract",
     "C20": "path text round-trip: renderer uses a regex, parsers are a &str state machine and a LALRPOP grammar; Verus rejects str slicing, Kani ICEs on regex",
     "C21": "JSON round-trip is serde_json's serializer/parser (external crate, float printing); no contract on vrl code expresses it",
